@@ -11,7 +11,7 @@ for d in sorted(os.listdir(os.path.join(ROOT, "seeded"))):
     notes = os.path.join(ROOT, "seeded", d, "AGENT_NOTES.md")
     title = m.get("title", "")
     if not title and os.path.exists(notes):
-        n = 1 if d[-1] in "acegik" else 2
+        n = 1 if d[-1] in "acegikm" else 2
         for l in open(notes, errors="replace"):
             mm = re.match(r"^#+\s*Change\s*%d\b\s*[-:–—]*\s*(.*)" % n, l.strip(), re.I)
             if mm:
